@@ -31,13 +31,123 @@ type verifWriter struct {
 
 func (w *verifWriter) Append(b netpoll.Writer) error {
 	atomic.AddInt32(&w.m.appended, 1)
+	verifInject("append")
 	return nil
 }
 
 func (w *verifWriter) Flush() error {
+	verifInject("flush.begin")
 	atomic.StoreInt32(&w.m.appended, 0)
 	atomic.AddInt32(&w.m.flushes, 1)
+	verifInject("flush.end")
 	return nil
+}
+
+// Injection (harness C17_inject): at every point where the worker calls out of the queue code
+// (IsActive, a getter, Append, Flush) another goroutine may run a complete Add. The injected
+// Add is the real code, executed at that point of the worker's progress.
+type verifInjector struct {
+	q      *ShardQueue
+	m      *verifMon
+	buf    netpoll.Writer
+	added  int
+	budget int
+	// Close injection (harness C17_closeinject)
+	allowClose       bool
+	closeBegan       bool
+	closeReturned    bool
+	addedBeforeClose int
+}
+
+//verif:stub runtime.Gosched verifGosched
+
+type verifYield struct{}
+
+// 0: a spinning caller lets one pending task run (blocked if there is none);
+// 1: the spinning caller is a Close nested inside a worker call-out: it is suspended by
+//    unwinding out of it (it has only read since its CAS) and its wait is finished by
+//    verifCloseWait below.
+var verifYieldMode int
+
+func verifGosched() {
+	if verifYieldMode == 1 {
+		verifPanicOK()
+		panic(verifYield{})
+	}
+	if !verifRunPending() {
+		verifAssume(false)
+	}
+}
+
+// Close begins here (the real code up to its first wait), possibly inside a worker call-out.
+func (in *verifInjector) beginClose() {
+	in.closeBegan = true
+	in.addedBeforeClose = in.added
+	defer func() {
+		verifYieldMode = 0
+		if r := recover(); r != nil {
+			if _, ok := r.(verifYield); !ok {
+				panic(r)
+			}
+		}
+	}()
+	verifYieldMode = 1
+	err := in.q.Close()
+	verifAssert(err == nil, "C17/close-error")
+	// returned without waiting
+	in.closeReturned = true
+	in.checkClosed()
+}
+
+// the rest of Close's wait loop, observed between tasks: it returns as soon as it sees the
+// state closed, or the trigger counter at zero
+func (in *verifInjector) closeWait() {
+	if !in.closeBegan || in.closeReturned {
+		return
+	}
+	if atomic.LoadInt32(&in.q.state) == closed {
+		in.closeReturned = true
+		in.checkClosed()
+		return
+	}
+	if atomic.LoadInt32(&in.q.trigger) == 0 {
+		atomic.StoreInt32(&in.q.state, closed)
+		in.closeReturned = true
+		in.checkClosed()
+	}
+}
+
+// what must hold when Close returns
+func (in *verifInjector) checkClosed() {
+	for k := 0; k < 4; k++ {
+		if k < in.addedBeforeClose {
+			verifAssert(atomic.LoadInt32(&in.m.inv[k]) == 1, "C17/close-returned-before-every-added-getter-was-invoked")
+		}
+	}
+	// (the property asks for "handled", i.e. invoked and appended; the flush of the last batch
+	// may still be in progress when Close sees the trigger counter at zero, so it is not asserted)
+}
+
+var verifInj *verifInjector
+
+func verifInject(where string) {
+	in := verifInj
+	if in == nil {
+		return
+	}
+	if in.allowClose && !in.closeBegan && verifNondetBool("inject.close."+where) {
+		in.beginClose()
+		return
+	}
+	if in.budget == 0 || in.added >= 4 {
+		return
+	}
+	if verifNondetBool("inject." + where) {
+		in.budget--
+		k := in.added
+		in.added++
+		in.q.Add(verifGetter(in.m, k, in.buf))
+	}
 }
 
 type verifConn struct {
@@ -46,7 +156,10 @@ type verifConn struct {
 	w *verifWriter
 }
 
-func (c *verifConn) IsActive() bool         { return atomic.LoadInt32(&c.m.connOpen) == 1 }
+func (c *verifConn) IsActive() bool {
+	verifInject("isactive")
+	return atomic.LoadInt32(&c.m.connOpen) == 1
+}
 func (c *verifConn) Writer() netpoll.Writer { return c.w }
 func (c *verifConn) Close() error           { atomic.StoreInt32(&c.m.connOpen, 0); return nil }
 
@@ -54,13 +167,16 @@ func verifRunTask(ctx context.Context, f func()) { verifSpawn(f) }
 
 func verifGetter(m *verifMon, k int, buf netpoll.Writer) WriterGetter {
 	return func() (netpoll.Writer, bool) {
+		verifInject("getter.begin")
 		n := atomic.AddInt32(&m.inv[k], 1)
 		verifAssert(n == 1, "C17/getter-invoked-twice")
+		verifInject("getter.end")
 		return buf, false
 	}
 }
 
 func verifQueue(size int) (*ShardQueue, *verifMon) {
+	verifInj = nil
 	runner.RunTask = verifRunTask
 	m := &verifMon{connOpen: 1}
 	w := &verifWriter{m: m}
@@ -128,5 +244,98 @@ func verifHarness_C17_script(size int) {
 	}
 	verifAssert(atomic.LoadInt32(&m.appended) == 0, "C17/append-without-flush")
 	verifAssert(atomic.LoadInt32(&q.trigger) == 0, "C17/trigger-not-zero-at-quiescence")
+	verifReach("end")
+}
+
+// Call-granular interleavings: one or two Adds, then the worker runs; at every call the worker
+// makes out of the queue code (IsActive, getters, Append, Flush) up to 3 further complete Adds
+// from "another goroutine" may be injected (chosen by the solver). All tasks then run to the
+// end. Same oracle as the script harness.
+//
+//verif:bounds shards 1..3; 1-2 initial Adds + <= 3 Adds injected at the worker's call-outs (7 kinds of point); <= 4 getters; no Close
+//verif:param 1 3
+//verif:loop 40
+//verif:replay interp
+//verif:blockok
+func verifHarness_C17_inject(size int) {
+	q, m := verifQueue(size)
+	var buf netpoll.Writer = &verifWriter{m: m}
+	in := &verifInjector{q: q, m: m, buf: buf}
+	q.Add(verifGetter(m, 0, buf))
+	in.added = 1
+	if verifNondetBool("second.add") {
+		q.Add(verifGetter(m, 1, buf))
+		in.added = 2
+	}
+	in.budget = 3
+	verifInj = in
+	for verifRunPending() {
+	}
+	verifInj = nil
+	for verifRunPending() {
+	}
+	for k := 0; k < 4; k++ {
+		n := atomic.LoadInt32(&m.inv[k])
+		if k < in.added {
+			verifAssert(n == 1, "C17/getter-not-invoked-exactly-once")
+		} else {
+			verifAssert(n == 0, "C17/getter-never-added-was-invoked")
+		}
+	}
+	verifAssert(atomic.LoadInt32(&m.appended) == 0, "C17/append-without-flush")
+	verifAssert(atomic.LoadInt32(&q.trigger) == 0, "C17/trigger-not-zero-at-quiescence")
+	verifAssert(atomic.LoadInt32(&q.runNum) == 0, "C17/worker-count-not-zero-at-quiescence")
+	verifReach("end")
+}
+
+// As C17_inject, plus one Close that may begin at any of the worker's call-outs (or between
+// tasks). A Close that has to wait is suspended after its CAS and its wait is completed
+// between tasks (see verifGosched): it returns as soon as it can observe state closed or the
+// trigger counter at zero. Oracle: at that moment every getter added before Close began has
+// been invoked once and flushed; Adds after Close began invoke nothing.
+//
+//verif:bounds shards 1..2; 1 initial Add + <= 2 injected Adds + 1 Close at the worker's call-outs; <= 4 getters
+//verif:param 1 2
+//verif:loop 40
+//verif:replay interp
+//verif:blockok
+func verifHarness_C17_closeinject(size int) {
+	q, m := verifQueue(size)
+	var buf netpoll.Writer = &verifWriter{m: m}
+	in := &verifInjector{q: q, m: m, buf: buf, allowClose: true}
+	q.Add(verifGetter(m, 0, buf))
+	in.added = 1
+	in.budget = 2
+	verifInj = in
+	for {
+		in.closeWait()
+		if !verifRunPending() {
+			break
+		}
+	}
+	verifInj = nil
+	if !in.closeBegan {
+		in.beginClose()
+	}
+	for !in.closeReturned {
+		in.closeWait()
+		if in.closeReturned {
+			break
+		}
+		if !verifRunPending() {
+			verifAssume(false)
+		}
+	}
+	for verifRunPending() {
+	}
+	for k := 0; k < 4; k++ {
+		n := atomic.LoadInt32(&m.inv[k])
+		if k < in.addedBeforeClose {
+			verifAssert(n == 1, "C17/getter-not-invoked-exactly-once")
+		} else {
+			verifAssert(n <= 1, "C17/getter-invoked-twice")
+		}
+	}
+	verifAssert(atomic.LoadInt32(&q.state) == closed, "C17/not-closed-after-close")
 	verifReach("end")
 }
